@@ -10,7 +10,8 @@ Next ==
     /\ LET r == Rec[l]  f == VplFails(r) IN
        IF f = {} THEN TRUE
        ELSE PrintT(<<"FAIL", l, ToJson([clauses |-> SetToSeq(f), case |-> [id |-> r.id, kind |-> r.kind, text |-> r.text,
-                                                                            parsed |-> r.parsed, built |-> r.built]])>>)
+                                                                            parsed |-> r.parsed, built |-> r.built,
+                                                                            after |-> (IF "after_40_rejections_of" \in DOMAIN r THEN r.after_40_rejections_of ELSE "")]])>>)
 Spec == Init /\ [][Next]_vars
 AllConsumed ==
     \/ TLCGet("stats").diameter - 1 = Len(Rec)
